@@ -520,8 +520,8 @@ func Dial(network, address string) (net.Conn, error) {
 		Sleep(60 * time.Second)
 		return nil, &net.OpError{Op: "dial", Net: "tcp", Err: os.NewSyscallError("connect", syscall.ETIMEDOUT)}
 	}
-	k := w.Counter("dial:" + fromName + ">" + address)
-	key := fmt.Sprintf("tcp:%s>%s#%d", fromName, address, k)
+	k := w.Counter("dial:" + fromName + ">" + address) // only for the ephemeral port number
+	key := fmt.Sprintf("tcp:%s>%s#%s", fromName, address, w.GSeq(g, "dial>"+address))
 	cp := &connPair{key: key, cNode: from, sNode: to, c2s: newPipe(), s2c: newPipe(), w: w}
 	cl := &TCPConn{p: cp, isClient: true, rd: cp.s2c, wr: cp.c2s, local: addr{fmt.Sprintf("%s:%d", fromIP, 40000+k)}, remote: addr{address}}
 	sv := &TCPConn{p: cp, isClient: false, rd: cp.c2s, wr: cp.s2c, local: addr{address}, remote: cl.local}
